@@ -105,7 +105,7 @@ def reachable(C, kind, lo, hi, xs):
 
 def op_obligations(tier, quick_docs, kinds, schemas_thorough, T, xs_quick=3, step_quick=4):
     obs = []
-    if tier == "quick":
+    if tier in ("quick", "explicit"):
         parts = [{"schema": s, "doc": i} for (s, i) in quick_docs]
     else:
         parts = common.doc_partitions(schemas_thorough, tier)
@@ -115,11 +115,11 @@ def op_obligations(tier, quick_docs, kinds, schemas_thorough, T, xs_quick=3, ste
         for kind in kinds:
             nx = ops.xrange_of(C, kind)
             q = dict(p, kind=kind)
-            if tier == "quick" and nx > xs_quick:
+            if tier in ("quick", "explicit") and nx > xs_quick:
                 stepx = max(1, nx // xs_quick)
                 q["xs"] = list(range(0, nx, stepx))[:xs_quick]
             step = step_quick if ops.uses_b(kind) else 100
-            if tier != "quick":
+            if tier not in ("quick", "explicit"):
                 step = 3 if ops.uses_b(kind) else 100
             for lo in range(0, C.size + 1, step):
                 if not reachable(C, kind, lo, min(lo + step, C.size + 1), q.get("xs", range(nx))):
